@@ -818,7 +818,7 @@ def explore(fn, max_paths=4096):
 
                 frames = _tb.extract_tb(e.__traceback__)
                 inner = frames[-1].filename if frames else ""
-                if "/pyvc/" in inner or "/contracts/" in inner or "site-packages/numpy" in inner:
+                if "/pyvc/" in inner or "/contracts/" in inner or "site-packages/numpy" in inner or isinstance(e, ImportError):
                     where = " | ".join("%s:%d %s" % (f.filename.rsplit("/", 1)[-1], f.lineno, f.name) for f in frames[-5:])
                     raise Unsupported("%s: %s [%s]" % (type(e).__name__, e, where)) from e
                 paths.append(Path(c, exc=e))
